@@ -527,7 +527,8 @@ def probe_utc_setters(ctx, res):
             if got is None or got.utcoffset() != timedelta(0) or abs(got - want) >= timedelta(seconds=1):
                 res.fail("C15: %s.%s set to a zoned date-time reads back as another instant (an acknowledgement in the "
                          "repeated hour would land an hour early)" % (clsname, attr),
-                         {"set": v.isoformat(), "fold": v.fold}, expected=want.isoformat(), observed=str(got))
+                         {"set": v.isoformat(), "fold": v.fold, "zone": str(v.tzinfo), "class": clsname, "attr": attr},
+                         expected=want.isoformat(), observed=str(got))
 
 
 def run(ctx, res):
@@ -577,6 +578,14 @@ def replay(ctx, data):
         for name, x in build_paths(tdesc, inst, provider, local):
             print(name, "->", obs_alarm_times(x))
         print("property says is_active =", rule(t, inst["A"], inst["C"], inst["S"]))
+    elif isinstance(inp, dict) and "attr" in inp:
+        import icalendar
+        from zoneinfo import ZoneInfo
+        v = datetime.fromisoformat(inp["set"]).replace(tzinfo=ZoneInfo(inp["zone"]), fold=inp["fold"])
+        c = getattr(icalendar, inp["class"])()
+        setattr(c, inp["attr"], v)
+        print("set   :", v.isoformat(), "fold", v.fold, "=", v.astimezone(timezone.utc).isoformat())
+        print("stored:", getattr(c, inp["attr"]), c.to_ical().decode())
     elif isinstance(inp, dict) and "ical" in inp:
         import icalendar
         from icalendar import Alarms
